@@ -8,8 +8,8 @@
 From QV Require Export Sig Peg.
 Local Open Scope string_scope.
 
-Definition snode := node ty.
-Definition sparser := parser ty.
+Notation snode := (node ty).
+Notation sparser := (parser ty).
 
 (* ---------- callbacks ---------- *)
 (* extractValue: the node must be a list whose first element is a Type *)
@@ -301,3 +301,32 @@ Definition type_panics (c : sig_cfg) (t : ty) : bool :=
 (* Type(): None = panic *)
 Definition go_type_result (c : sig_cfg) (t : ty) : option shape :=
   if type_panics c t then None else Some (go_type t).
+
+(* ---------- consistency of the Go representation with the signature ---------- *)
+(* the signature a kind tree stands for: members in order, names dropped *)
+Fixpoint shape_sig (s : shape) : string :=
+  match s with
+  | KInt8 => "c" | KUint8 => "C" | KInt16 => "w" | KUint16 => "W" | KInt32 => "i" | KUint32 => "I"
+  | KInt64 => "l" | KUint64 => "L" | KFloat32 => "f" | KFloat64 => "d" | KBool => "b" | KString => "s"
+  | KPtrAny => "m" | KPtrError => "X"
+  | KSlice e => "[" ++ shape_sig e ++ "]"
+  | KMap k v => "{" ++ shape_sig k ++ shape_sig v ++ "}"
+  | KStruct fs => "(" ++ String.concat "" (map (fun f => shape_sig (snd f)) fs) ++ ")"
+  end.
+
+(* a type with the names dropped: structs become tuples, v the empty tuple, o the tuple [obj] *)
+Fixpoint anon_with (obj : ty) (t : ty) : ty :=
+  match t with
+  | TS SVoid => TTuple []
+  | TS SObject => obj
+  | TS s => TS s
+  | TList t => TList (anon_with obj t)
+  | TMap k v => TMap (anon_with obj k) (anon_with obj v)
+  | TTuple ts => TTuple (map (anon_with obj) ts)
+  | TStruct _ fs => TTuple (map (fun f => anon_with obj (snd f)) fs)
+  end.
+Definition anon_object : ty := anon_with (TS SObject) ty_ObjectReference.
+Definition anon (t : ty) : ty := anon_with anon_object t.
+
+Definition shape_fields (s : shape) : list string :=
+  match s with KStruct fs => map fst fs | _ => [] end.
